@@ -154,6 +154,8 @@ def make_cases(ctx: Ctx) -> List[Dict[str, Any]]:
     cases = []
     outcomes = [{"outcome": "ok"}] + [{"outcome": "fail_after", "k": k, "nchunks": 3} for k in range(4)] + [{"outcome": "no_result"}, {"outcome": "ok", "nchunks": 0}]
     # chatty containers: the failure (or the result) comes after many thousands of output chunks
+    # the job wrote (part of) its result before the container failed: still a failure, nothing is returned
+    outcomes += [{"outcome": "fail_after", "k": 2, "nchunks": 3, "write_at": 0}, {"outcome": "fail_after", "k": 3, "nchunks": 3, "write_at": 1}, {"outcome": "fail_after", "k": 5, "nchunks": 6, "write_at": 4}]
     outcomes += [{"outcome": "ok", "nchunks": 20000}, {"outcome": "fail_after", "k": 19999, "nchunks": 20000}, {"outcome": "fail_after", "k": 20000, "nchunks": 20000}]
     i = 0
     for cls in ("atlas", "cms_aod", "cms_miniaod"):
